@@ -16,6 +16,7 @@ import (
 //   - the same steps of the same last group on a base with one group less grew by d as well (calibration:
 //     the step does not cross a jump-distance threshold inside the group), and
 //   - the length before the rejected step plus d is at most 4096.
+//
 // A rejection beyond that point is not judged (refusing an oversize program at compile time is legitimate),
 // and irregular growth is counted, not judged.
 type limitFamily struct {
